@@ -601,6 +601,155 @@ VARIANTS = [
             if field.dependencies:""")),
     B("C01 element parser skipped for empty containers", "C01", "R01c",
       (RULE, "        if cls.__args_parser__:\n            try:", "        if cls.__args_parser__ and not cls.__abstract__:\n            try:")),
+    # ------------------------------------------------------------------ C11
+    B("C11 parse_pos_type: EXCLUDE and PRESERVE swapped", "C11", "R11a",
+      (FUNC, """                if options.invalid_items == options.PRESERVE:
+                    context.collect_waring(error.formatted_message)
+                elif options.invalid_items == options.EXCLUDE:
+                    context.collect_waring(error.formatted_message)
+                    return unprovided""", """                if options.invalid_items == options.EXCLUDE:
+                    context.collect_waring(error.formatted_message)
+                elif options.invalid_items == options.PRESERVE:
+                    context.collect_waring(error.formatted_message)
+                    return unprovided""")),
+    B("C11 parse_value: required test dropped under EXCLUDE", "C11", "R11b",
+      (FIELD, """                    if self.is_required(context.options):
+                        # required field cannot be excluded
+                        context.handle_error(error)
+                    else:
+                        context.collect_waring(error.formatted_message)""", """                    context.collect_waring(error.formatted_message)""")),
+    B("C11 seq: PRESERVE appends nothing", "C11", "R11a",
+      (RULE, """                    if options.invalid_items == options.PRESERVE:
+                        context.collect_waring(error.formatted_message)
+                        result.append(item)
+                        continue
+                    context.handle_error(error)
+        return result""", """                    if options.invalid_items == options.PRESERVE:
+                        context.collect_waring(error.formatted_message)
+                        continue
+                    context.handle_error(error)
+        return result""")),
+    B("C11 map value handler consults invalid_keys", "C11", "R11a",
+      (RULE, """                        if options.invalid_values == options.EXCLUDE:
+                            context.collect_waring(error.formatted_message)
+                            continue
+                        elif options.invalid_values == options.PRESERVE:
+                            context.collect_waring(error.formatted_message)
+                            val = _val""", """                        if options.invalid_keys == options.EXCLUDE:
+                            context.collect_waring(error.formatted_message)
+                            continue
+                        elif options.invalid_keys == options.PRESERVE:
+                            context.collect_waring(error.formatted_message)
+                            val = _val""")),
+    B("C11 parse_addition: EXCLUDE keeps the raw value", "C11", "R11a",
+      (BASE, """                if options.invalid_values == options.EXCLUDE:
+                    context.collect_waring(error.formatted_message)
+                    return unprovided
+                elif options.invalid_values == options.PRESERVE:""", """                if options.invalid_values == options.EXCLUDE:
+                    context.collect_waring(error.formatted_message)
+                elif options.invalid_values == options.PRESERVE:""")),
+    B("C11 seq: EXCLUDE keeps a placeholder", "C11", "R11a",
+      (RULE, """                    if options.invalid_items == options.EXCLUDE:
+                        context.collect_waring(error.formatted_message)
+                        continue
+                    if options.invalid_items == options.PRESERVE:
+                        context.collect_waring(error.formatted_message)
+                        result.append(item)""", """                    if options.invalid_items == options.EXCLUDE:
+                        context.collect_waring(error.formatted_message)
+                        result.append(None)
+                        continue
+                    if options.invalid_items == options.PRESERVE:
+                        context.collect_waring(error.formatted_message)
+                        result.append(item)""")),
+    B("C11 map key: PRESERVE keeps the str() of the key", "C11", "R11a",
+      (RULE, """                    elif options.invalid_keys == options.PRESERVE:
+                        key = _key""", """                    elif options.invalid_keys == options.PRESERVE:
+                        key = str(_key)""")),
+    B("C11 output value: PRESERVE returns the sentinel", "C11", "R11a",
+      (FIELD, """            elif error_option == context.options.PRESERVE:
+                context.collect_waring(error.formatted_message)
+                return value
+            else:
+                context.handle_error(error)
+            return unprovided
+
+    def parse_value""", """            elif error_option == context.options.PRESERVE:
+                context.collect_waring(error.formatted_message)
+            else:
+                context.handle_error(error)
+            return unprovided
+
+    def parse_value""")),
+    # ------------------------------------------------------------------ C05
+    B("C05 get_default returns the shared default", "C05", "R05a",
+      (FIELD, "        return copy_value(default)\n\n    def get_on_error", "        return default\n\n    def get_on_error")),
+    B("C05 copy_value shallow for dict values", "C05", "R05a",
+      ("utype/utils/functional.py", "        return {k: copy_value(v) for k, v in data.items()}", "        return dict(data)")),
+    B("C05 field-first skips the no-input gate for aliased fields", "C05", "R05b",
+      (BASE, """            if field.is_no_input(value, options=options):
+                # no input field does not take input from __init__
+                # but can still apply default
+                default = field.get_default(options, defer=False)
+                if not unprovided(default):
+                    result[name] = default
+                continue
+
+            if not options.ignore_alias_conflicts and not unprovided(conflict):""", """            if not field.aliases and field.is_no_input(value, options=options):
+                # no input field does not take input from __init__
+                # but can still apply default
+                default = field.get_default(options, defer=False)
+                if not unprovided(default):
+                    result[name] = default
+                continue
+
+            if not options.ignore_alias_conflicts and not unprovided(conflict):""")),
+    B("C05 parse_addition tests falsy before False", "C05", "R05d",
+      (BASE, """        if context.options.addition is False:
+            context.handle_error(exc.ExceedError(item=key, value=value))
+            return unprovided
+        if not context.options.addition:
+            # None
+            return unprovided""", """        if not context.options.addition:
+            # None
+            return unprovided
+        if context.options.addition is False:
+            context.handle_error(exc.ExceedError(item=key, value=value))
+            return unprovided""")),
+    B("C05 is_required ignores ignore_required for mode strings", "C05", "R05c",
+      (FIELD, """        if options.ignore_required or not self.required:
+            return False
+        if self.always_no_input(options):""", """        if not self.required:
+            return False
+        if options.ignore_required and self.required is True:
+            return False
+        if self.always_no_input(options):""")),
+    B("C05 no_default only honoured for declared defaults", "C05", "R05e",
+      (FIELD, """        if options.no_default:
+            return unprovided
+
+        if isinstance(defer, bool):""", """        if options.no_default and unprovided(options.force_default) and not self.default_factory:
+            return unprovided
+
+        if isinstance(defer, bool):""")),
+    B("C05 parse_params: absence error without is_required", "C05", "R05c",
+      (FUNC, """            if field.is_required(options=context.options):
+                context.handle_error(exc.AbsenceError(item=field.attname))
+                continue
+            default = field.get_default(context.options)""", """            if field.required:
+                context.handle_error(exc.AbsenceError(item=field.attname))
+                continue
+            default = field.get_default(context.options)""")),
+    B("C05 field setter keeps no_output values in the mapping", "C05", "R05e",
+      (SCHEMA, """            if field.is_no_output(value, options=self.__options__):
+                self.__dict__[field.attname] = value
+                # no output
+                if field.name in self:
+                    super().__delitem__(field.name)
+            else:
+                super().__setitem__(field.name, value)""", """            if field.is_no_output(value, options=self.__options__):
+                self.__dict__[field.attname] = value
+                # no output
+            super().__setitem__(field.name, value)""")),
     # ------------------------------------------------------------------ benign
     G("benign gt: not value > gt", (RULE, "        if value <= gt:\n            raise ValueError\n        return value",
                                     "        if not value > gt:\n            raise ValueError\n        return value")),
